@@ -4,7 +4,7 @@
     K1-C13) and is covered by the metamorphic check. *)
 From Coq Require Import String List Arith Bool QArith Permutation Lia.
 From CR Require Import Model.Num Model.Outcome Model.Graph Model.Game
-     Proofs.GraphP Proofs.ReachQ Proofs.EquivP Proofs.EquivQ.
+     Proofs.GraphP Proofs.Laws Proofs.ReachQ Proofs.EquivP Proofs.EquivQ Proofs.EquivScan.
 Import ListNotations.
 
 (* the backward search of the renamed game returns exactly the renamed states *)
@@ -45,6 +45,20 @@ Proof.
   eapply (V_equivariant n pi kd kd' tr tr' finb finb'); eauto.
 Qed.
 
+(* the strategy scans are equivariant (any instance with lawful comparisons, e.g. Q): if the scanned
+   (action, value) list is reordered and its actions renamed while the values are the same, the scan
+   lists exactly the renamed actions, in the order of the reordered list *)
+Theorem C13_strategies_equivariant : forall (T : Type) (K : ops T), lawful_order K ->
+  forall (rho : string -> string) m0 (l l' : list (string * T)),
+  Permutation l' (map (ren_av rho) l) ->
+  (snd (scan_max K m0 l') = map fst (filter (fun av => eqb K (snd av) (vmax K m0 l')) l') /\
+   Permutation (snd (scan_max K m0 l')) (map rho (snd (scan_max K m0 l)))) /\
+  (snd (scan_min K m0 l') = map fst (filter (fun av => eqb K (snd av) (vmin K m0 l')) l') /\
+   Permutation (snd (scan_min K m0 l')) (map rho (snd (scan_min K m0 l)))).
+Proof.
+  intros T K L rho m0 l l' P. split; [apply scan_max_equivariant|apply scan_min_equivariant]; assumption.
+Qed.
+
 (* non-vacuity: swapping states 1 and 2 of a three-state graph *)
 Example C13_example :
   renaming 3 (fun i => match i with 1 => 2 | 2 => 1 | _ => i end) (fun i => match i with 1 => 2 | 2 => 1 | _ => i end) /\
@@ -64,3 +78,4 @@ Print Assumptions C13_reach_set_equivariant.
 Print Assumptions C13_paths_equivariant.
 Print Assumptions C13_bellman_equivariant.
 Print Assumptions C13_values_equivariant.
+Print Assumptions C13_strategies_equivariant.
